@@ -202,7 +202,7 @@ func c10Scripted(c *Ctx) {
 		for q := 0; q < nreq+36; q++ {
 			tail := q >= nreq
 			// occasionally administer
-			if !tail && r.IntN(60) == 0 && len(srvs) >= 2 {
+			if !tail && r.IntN(60) == 0 && len(srvs) >= 1 {
 				op := r.IntN(5)
 				switch {
 				case op == 4:
@@ -244,7 +244,7 @@ func c10Scripted(c *Ctx) {
 						return
 					}
 					nextIdx++
-				case op == 1 && len(srvs) > 2:
+				case op == 1 && len(srvs) > 1: // (also down to a single server: its configured weight must be back in force)
 					k := r.IntN(len(srvs))
 					script = append(script, sfmt("remove %s", srvs[k].u.Host))
 					if err := rb.RemoveServer(srvs[k].u); err != nil {
